@@ -380,6 +380,15 @@ def arith_tie(runner, out, rep, data):
         pp = common.run_lines(runner, ["linarith prev_padding %d" % int(pm.group(1))])[0]
         if pp == "exc" or int(pp) != len(pm.group(2)):
             diffs.append("/Prev padding: model %s, file has %d spaces" % (pp, len(pm.group(2))))
+        # /T as the writer computes it: after "xref\n0 <n>" for a table, stream offset - 1 for a stream
+        prev = int(pm.group(1))
+        mt = re.match(rb"xref\n0 (\d+)\n", data[prev:prev + 40])
+        if mt:
+            t = common.run_lines(runner, ["linarith T_table %d %d" % (prev, len(mt.group(1)))])[0]
+        else:
+            t = common.run_lines(runner, ["linarith T_stream %d" % prev])[0]
+        if t != str(T):
+            diffs.append("/T: model %s, file has %d" % (t, T))
     else:
         diffs.append("no /Prev in the first-page trailer region")
     return diffs
@@ -536,7 +545,8 @@ def part_files(chk, runner):
     for i, (rc, se, out, args) in enumerate(res):
         inp, cfg = jobs[i]
         txt = se.decode("latin-1")
-        if re.search(r"logic_error|insufficient padding|count mismatch|INTERNAL ERROR|error encountered after writing part", txt):
+        # (a botched corpus input may be refused with exit 2 "error encountered after writing part N": a refusal, not an output)
+        if re.search(r"logic_error|insufficient padding|count mismatch|INTERNAL ERROR", txt):
             chk.violation({"kind": "property-fails-on-implementation", "part": "linearize", "why": "the two linearization passes disagree / internal error while linearizing",
                            "input": inp["path"], "argv": ["qpdf"] + args, "exit": rc, "stderr": txt[-400:]}, signature="lin:write-failed:" + inp["name"])
             continue
